@@ -16,7 +16,7 @@ from adsg_core.graph.sup import SupDSG, SupNode, SupSelChoiceOptionMapping, SupE
 from .. import gen
 from ..explore import Walk
 
-RULE = ('seeded source DSGs (tree stream, 1-3 choices, conditional choices) x all their architectures x seeded '
+RULE = ('seeded source DSGs (tree stream, 1-3 choices, conditional choices, design-variable and metric nodes) x all their architectures x seeded '
         'supplementary graphs with 1-3 mapped choices (option / existence mappings, nested choices, random registration '
         'order) plus malformed variants (mapping dropped / duplicated / inactive case omitted / non-final source); a case is '
         'one (source architecture, supplementary graph); non-trivial = a nested supplementary choice, an inactive source '
@@ -58,7 +58,11 @@ def gen_sup(rng, src_spec, mappable=None, src_nodes=None):
             # mostly nodes of the initialised source graph; sometimes (malformed stream) any declared node, which
             # add_mapping must reject when the node was removed at initialisation
             pool = list(range(src_spec['n'])) if (src_nodes is None or rng.random() < .15) else list(src_nodes)
+            special = [d['node'] for d in src_spec.get('dvs', [])] + [m_['node'] for m_ in src_spec.get('metrics', [])]
+            special = [v for v in special if v in pool]
             nodes = rng.sample(pool, min(rng.randint(1, 3), len(pool)))
+            if special and rng.random() < .6:
+                nodes = [rng.choice(special)] + [v for v in nodes if v not in special][:2]
             maps.append([ci, {'kind': 'exist', 'entries': [[v, rng.randrange(k)] for v in nodes], 'default': rng.randrange(k)}])
     rng.shuffle(maps)
     return sup, maps
@@ -211,6 +215,11 @@ def run(ctx, rep):
     i = 0
     for i in range(n):
         src = gen.gen_tree(ctx.rng, depth=3, incompat=ctx.rng.random() < .2)
+        # design-variable and metric nodes in the source (existence mappings may be keyed on any kind of node)
+        if ctx.rng.random() < .5:
+            src = gen.attach_dvs(ctx.rng, src, 1, 2)
+        if ctx.rng.random() < .5:
+            src = gen.attach_metrics(ctx.rng, src, 1, 2)
         try:
             sb = gen.build(src)
             mappable = [ci for ci, c in enumerate(sb.cn) if c in sb.dsg.graph.nodes]
